@@ -335,7 +335,9 @@ impl BinaryMatrix for SparseBinaryMatrix {
 
     fn enable_column_access_acceleration(&mut self) {
         self.column_index_disabled = false;
-        let mut builder = ImmutableListMapBuilder::new(self.height);
+        // The index is keyed by physical column: one slot per physical column (which may be more
+        // than the current height or width, e.g. for a wide matrix or after resize() dropped columns)
+        let mut builder = ImmutableListMapBuilder::new(self.physical_col_to_logical.len());
         for (physical_row, elements) in self.sparse_elements.iter().enumerate() {
             for (physical_col, _) in elements.keys_values() {
                 builder.add(physical_col as u16, physical_row as u32);
